@@ -91,6 +91,16 @@ def check(chk):
     f = repo.func(LT, "Light._schedule_update")
     chk.analysed(f)
     cfg = f.cfg()
+    # the "nothing changed" shortcuts compare the new *logical* target with the remembered one: what is remembered is the logical colours, taken
+    # before brightness / colour correction rewrites the locals (a corrected colour remembered here would be compared with raw ones next time)
+    rem = [n for n in cfg.nodes if n.kind == "stmt" and isinstance(n.ast, ast.Assign) and src(n.ast.targets[0]) == "self._last_fade_target"]
+    corr = [n for n in cfg.nodes if n.kind == "stmt" and isinstance(n.ast, ast.Assign) and
+            any(isinstance(c_, ast.Call) and call_attr(c_) in ("color_correct", "gamma_correct") for c_ in ast.walk(n.ast.value))]
+    chk.need(rem and corr, "SUPP-1", "_schedule_update remembers the last target and corrects colours", f)
+    late = [(k_, r_) for k_ in corr for r_ in rem if cfg.path_avoiding(k_.id, [r_.id], []) is not None]
+    chk.ob("SUPP-1", "the remembered fade target holds the logical colours (it is stored before any colour correction is applied to the locals)", not late,
+           f.where(late[0][1].ast) if late else f.where(), detail="stored after `%s`" % (short(late[0][0].ast, 70) if late else ""), construct=f.ident,
+           text="remembered target stored after correction")
     sf = [(n, c) for n, c in cfg.calls_named("set_fade")]
     chk.need(sf, "DOM-18", "_schedule_update commands the hardware through set_fade", f)
     outer = [h for h in cfg.nodes if h.kind == "loop" and "hw_drivers" in src(h.ast.iter)]
@@ -1081,6 +1091,7 @@ def scan_exits_only_at_key(chk, rule, g, gcfg, h, name):
 def battery():
     from sa.battery import M
     return [
+        M("corrected colours remembered as the last target", LT, "        self._last_fade_target = (start_color, start_time, target_color, target_time)\n\n        if start_color != target_color:\n            start_color = self.color_correct(self.gamma_correct(start_color))\n            target_color = self.color_correct(self.gamma_correct(target_color))\n        else:\n            start_color = self.color_correct(self.gamma_correct(start_color))\n            target_color = start_color\n", "        if start_color != target_color:\n            start_color = self.color_correct(self.gamma_correct(start_color))\n            target_color = self.color_correct(self.gamma_correct(target_color))\n        else:\n            start_color = self.color_correct(self.gamma_correct(start_color))\n            target_color = start_color\n\n        self._last_fade_target = (start_color, start_time, target_color, target_time)\n", "SUPP-1"),
         M("realised light skipped in the middle of an un-faded batch", "mpf/core/platform_batch_light_system.py", "                        not sequential_brightness_list:\n", "                        (not sequential_brightness_list or fade_ms == 0):\n", "BATCH-2"),
         M("fade-out starts from the colour on top of the stack", LT, "            color_of_key = self._get_color_and_fade(stack, 0)[0]", "            color_of_key = self._get_color_and_fade(self.stack, 0)[0]", "FADE-2"),
         M("explicit fade 0 replaced by the default on removal", LT, "            return\n\n        if fade_ms is None:\n            fade_ms = self.default_fade_ms\n\n        key = str(key)", "            return\n\n        if not fade_ms:\n            fade_ms = self.default_fade_ms\n\n        key = str(key)", "FADE-2"),
